@@ -18,6 +18,7 @@ Theorems quantify over every byte string (`List UInt8`) — no length bound.
 import RtcModel.Lemmas.C07Rtp
 import RtcModel.Lemmas.C07Ice
 import RtcModel.Lemmas.C07Dtls
+import RtcModel.Lemmas.C07Sctp
 
 namespace RtcModel.Theorems.C07
 open RtcModel.C07
@@ -186,5 +187,29 @@ theorem noPanic_serverExtWalk (bs : List UInt8) (s : String) : runBuf Dtls.serve
 reading the session-id length without the check (`getU8` on an empty buffer) is the panic the code had. -/
 example : (runBuf Dtls.clientHelloDecode (List.replicate 34 0)).isPanic = false := by decide +kernel
 example : (getU8 (Buf.ofList []) 0).isPanic = true := by decide +kernel
+
+/-! ## SCTP / DCEP (src/transports/sctp.rs, src/transports/datachannel.rs) -/
+
+/-- the byte walk of `SctpInner::handle_packet` — common header, chunk walk with padding, and inside it the INIT /
+INIT-ACK parameter walk, SACK gap blocks, FORWARD-TSN pairs, RE-CONFIG parameters, DATA header and DCEP
+dispatch — never panics and leaves every loop, whatever the checksum comparison says. -/
+theorem noPanic_sctpPacket (bs : List UInt8) (crcOk : Bool) (s : String) : runBuf (Sctp.handlePacket crcOk) bs ≠ .panic s :=
+  safe_noPanic (Sctp.handlePacket_safe crcOk _) s
+
+/-- the vectors these walkers build (gap blocks, SSN pairs, stream lists, DCEP strings, reassembly append) take at
+most `2·|bs|` bytes per packet. -/
+theorem allocBound_sctpPacket (bs : List UInt8) (crcOk : Bool) : (runBuf (Sctp.handlePacket crcOk) bs).allocs ≤ 2 * bs.length := by
+  simpa [runBuf] using safe_allocs (Sctp.handlePacket_safe crcOk (Buf.ofList bs))
+
+/-- `DataChannelOpen::unmarshal` / `DataChannelAck::unmarshal` are total; OPEN allocates at most `2·|bs|`. -/
+theorem noPanic_dcepOpen (bs : List UInt8) (s : String) : runBuf Sctp.dcepOpenUnmarshal bs ≠ .panic s :=
+  safe_noPanic (Sctp.dcepOpenUnmarshal_safe (B := 2 * bs.length) (Q := fun _ _ _ => True) (n := 0)
+    (by simp) (fun _ _ _ _ => trivial)) s
+theorem allocBound_dcepOpen (bs : List UInt8) : (runBuf Sctp.dcepOpenUnmarshal bs).allocs ≤ 2 * bs.length := by
+  have h := safe_allocs (Sctp.dcepOpenUnmarshal_safe (B := 2 * bs.length) (Q := fun _ _ n' => n' ≤ 2 * bs.length)
+    (b := Buf.ofList bs) (n := 0) (by simp) (fun _ _ _ h => by simpa using h))
+  simpa [runBuf] using h
+theorem noPanic_dcepAck (bs : List UInt8) (s : String) : runSlice Sctp.dcepAckUnmarshal bs ≠ .panic s :=
+  safe_noPanic (Sctp.dcepAckUnmarshal_safe bs.toArray _ _) s
 
 end RtcModel.Theorems.C07
